@@ -45,12 +45,13 @@ JudgeChild(o) ==
 
 JudgeToken(o) ==
     LET k == FirstExact(o.calls)
-        respOK == \A j \in 1..Len(o.calls) :
-                     IF o.calls[j].token = "exact" THEN o.responses[j].status = 200
+        (* the right token: 200; the right token with an output that is not JSON text: 400 InvalidOutput (and the
+           task does not complete); anything else: 400 InvalidToken *)
+        RespOK(j) == IF o.calls[j].token = "exact" THEN o.responses[j].status = 200
+                     ELSE IF o.calls[j].token = "badoutput" THEN o.responses[j].status = 400 /\ o.responses[j].type = "InvalidOutput"
                      ELSE o.responses[j].status = 400 /\ o.responses[j].type = "InvalidToken"
-        badResp == CHOOSE j \in 1..Len(o.calls) :
-                     ~(IF o.calls[j].token = "exact" THEN o.responses[j].status = 200
-                       ELSE o.responses[j].status = 400 /\ o.responses[j].type = "InvalidToken")
+        respOK == \A j \in 1..Len(o.calls) : RespOK(j)
+        badResp == CHOOSE j \in 1..Len(o.calls) : ~RespOK(j)
     IN IF o.early THEN "TokenExact:completed-without-callback"
        ELSE IF o.completedBy # k THEN "TokenExact:completed-by-the-wrong-call"
        ELSE IF k # 0 /\ o.calls[k].api = "success" /\ ~(o.task.kind = "result" /\ JEq(o.task.v, o.calls[k].out)) THEN "TokenExact:output-not-exact"
